@@ -61,6 +61,7 @@ func PendingLen(c Conn) int {
         'pkg': 'zzverif/worlds/sse',
         'rewrite': [('cmd/templ/generatecmd/sse', 'sync')],
         'gostart': ['cmd/templ/generatecmd/sse'],
+        'httpserve': ['cmd/templ/generatecmd'],
     },
 }
 
@@ -257,9 +258,13 @@ PROPS = {
         'rule': 'one run = one tape-driven schedule of connect/broadcast/release/fail/cancel/stall/advance actions against the real sse.Handler '
                 'behind proxy.Handler inside a synctest bubble; distinct = distinct event-log hash; non-trivial = at least one client and one '
                 'broadcast and (a fault fired or the schedule switched between tasks). Stage race: the same world in a -race build where a client may connect or an idle client '
-                'may leave at the very moment of a broadcast (no quiescence in between); a race report, a crash or a lost event is the violation',
-        'real': ['cmd/templ/generatecmd/sse.Handler (Send, ServeHTTP)', 'cmd/templ/generatecmd/proxy.Handler routing and SendSSE'],
-        'stubbed': ['http.ResponseWriter/Flusher (parks on every Write)', 'request contexts', 'clock (testing/synctest fake clock)', 'net/http server loop, browser'],
+                'may leave at the very moment of a broadcast (no quiescence in between); a race report, a crash or a lost event is the violation. Every fourth run is the '
+                'HTTP-server world instead: Generate.StartProxy starts its own net/http server (ListenAndServe redirected by prep to an in-memory listener), tabs are goroutines '
+                'speaking HTTP/1.1 over net.Pipe connections with deadlines on the fake clock; actions connect / broadcast (SendSSE or POST) / freeze-thaw a tab / close a tab / '
+                'advance 1 ms .. 11 min; after faults stop every tab left open must hold every reload broadcast while it was subscribed and its stream must not have ended',
+        'real': ['cmd/templ/generatecmd/sse.Handler (Send, ServeHTTP)', 'cmd/templ/generatecmd/proxy.Handler routing and SendSSE',
+                 'HTTP-server world: generatecmd.(*Generate).StartProxy and the net/http server it configures and starts (server loop, timeouts, chunked streaming, flushing)'],
+        'stubbed': ['http.ResponseWriter/Flusher (parks on every Write) in the handler world', 'request contexts', 'clock (testing/synctest fake clock)', 'TCP (net.Pipe connections from an in-memory listener)', 'browser (EventSource parser)', 'the proxied application (never contacted)'],
         'assumptions': [
             'states in which a select has more than one ready case are not generated (runtime choice is unseedable): a client with a pending delivery leaves by write failure, not by bare context cancellation; the clock advances only when every non-stalled client is idle',
             'sync.Mutex in the sse package is replaced by a channel-based mutex (durable blocking under synctest)',
